@@ -493,6 +493,18 @@ def _sim_join(self, timeout=None):
     sched.block(lambda: target.status == "done", deadline, what="join")
 
 
+def _poll(cond, timeout):
+    """Fallback for Sim* primitives used by a thread the scheduler does not know."""
+    import time as _t
+
+    end = None if timeout is None else _t.monotonic() + timeout
+    while not cond():
+        if end is not None and _t.monotonic() >= end:
+            return False
+        _t.sleep(0.0005)
+    return True
+
+
 class SimLock:
     """Scheduler-aware replacement for threading.Lock (non-reentrant)."""
 
@@ -604,9 +616,7 @@ class SimEvent:
     def wait(self, timeout=None):
         sched = ACTIVE
         if sched is None or sched.me() is None:
-            if self._flag:
-                return True
-            raise HarnessError("SimEvent.wait outside a simulation")
+            return _poll(lambda: self._flag, timeout)
         deadline = None if timeout is None else sched.now + timeout
         sched.block(lambda: self._flag, deadline, what="event")
         return self._flag
@@ -628,7 +638,18 @@ class SimCondition:
     def wait(self, timeout=None):
         sched = ACTIVE
         if sched is None or sched.me() is None:
-            raise HarnessError("SimCondition.wait outside a simulation")
+            ticket = [False]
+            self._waiters.append(ticket)
+            saved = self._lock._release_save() if hasattr(self._lock, "_release_save") else self._lock.release()
+            try:
+                return _poll(lambda: ticket[0], timeout)
+            finally:
+                if hasattr(self._lock, "_acquire_restore"):
+                    self._lock._acquire_restore(saved)
+                else:
+                    self._lock.acquire()
+                if ticket in self._waiters:
+                    self._waiters.remove(ticket)
         ticket = [False]
         self._waiters.append(ticket)
         if hasattr(self._lock, "_release_save"):
@@ -681,10 +702,12 @@ class SimSemaphore:
     def acquire(self, blocking=True, timeout=None):
         sched = ACTIVE
         if sched is None or sched.me() is None:
-            if self._v > 0:
-                self._v -= 1
-                return True
-            raise HarnessError("SimSemaphore.acquire would block outside a simulation")
+            if not blocking and self._v <= 0:
+                return False
+            if not _poll(lambda: self._v > 0, timeout):
+                return False
+            self._v -= 1
+            return True
         sched.yield_point("sem")
         while self._v <= 0:
             if not blocking:
@@ -817,10 +840,10 @@ def install_threading_seam(modules=()):
     qnames = {"Queue": SimQueue, "SimpleQueue": SimQueue, "LifoQueue": SimLifoQueue}
     for mod in modules:
         for n in sorted(names):
-            if hasattr(mod, n) and getattr(mod, n) is getattr(threading, n, None):
+            if hasattr(mod, n) and getattr(mod, n) in (_REAL_PRIMS.get(n), _FACTORIES.get(n)):
                 setattr(mod, n, names[n])
         for n in sorted(qnames):
-            if hasattr(mod, n) and getattr(mod, n) is getattr(_queue, n, None):
+            if hasattr(mod, n) and getattr(mod, n) in (_REAL_QUEUES.get(n), _QFACTORIES.get(n)):
                 setattr(mod, n, qnames[n])
         if getattr(mod, "threading", None) is threading:
             mod.threading = _Shim(threading, names)
@@ -836,10 +859,10 @@ def patch_modules(modules):
     qnames = {"Queue": SimQueue, "SimpleQueue": SimQueue, "LifoQueue": SimLifoQueue}
     for mod in modules:
         for n in sorted(names):
-            if hasattr(mod, n) and getattr(mod, n) is getattr(threading, n, None):
+            if hasattr(mod, n) and getattr(mod, n) in (_REAL_PRIMS.get(n), _FACTORIES.get(n)):
                 setattr(mod, n, names[n])
         for n in sorted(qnames):
-            if hasattr(mod, n) and getattr(mod, n) is getattr(_queue, n, None):
+            if hasattr(mod, n) and getattr(mod, n) in (_REAL_QUEUES.get(n), _QFACTORIES.get(n)):
                 setattr(mod, n, qnames[n])
         if getattr(mod, "threading", None) is threading:
             mod.threading = _Shim(threading, names)
@@ -847,11 +870,66 @@ def patch_modules(modules):
             mod.queue = _Shim(_queue, qnames)
 
 
+import os as _os
+import queue as _queue_mod
+
+_STDLIB = _os.path.dirname(_os.__file__)
+_REAL_PRIMS = {n: getattr(threading, n) for n in ("Lock", "RLock", "Event", "Condition", "Semaphore", "BoundedSemaphore")}
+_REAL_QUEUES = {n: getattr(_queue_mod, n) for n in ("Queue", "SimpleQueue", "LifoQueue")}
+_SIM_PRIMS = {"Lock": SimLock, "RLock": SimRLock, "Event": SimEvent, "Condition": SimCondition, "Semaphore": SimSemaphore, "BoundedSemaphore": SimSemaphore}
+_SIM_QUEUES = {"Queue": SimQueue, "SimpleQueue": SimQueue, "LifoQueue": SimLifoQueue}
+_GLOBAL_ON = 0
+
+
+def _factory(real, sim):
+    def make(*a, **k):
+        # the standard library keeps its own real primitives (Thread internals, logging, ...);
+        # everything else - the code under test - gets the scheduler-aware version
+        caller = sys._getframe(1).f_code.co_filename
+        if caller.startswith(_STDLIB) and "site-packages" not in caller:
+            return real(*a, **k)
+        return sim(*a, **k)
+
+    make.__name__ = getattr(real, "__name__", "factory")
+    return make
+
+
+_FACTORIES = {n: _factory(_REAL_PRIMS[n], _SIM_PRIMS[n]) for n in _REAL_PRIMS}
+_QFACTORIES = {n: _factory(_REAL_QUEUES[n], _SIM_QUEUES[n]) for n in _REAL_QUEUES}
+
+
+def global_patch_on():
+    """threading.Lock & co. create scheduler-aware objects for non-stdlib callers.  Used
+    while a module under test is being (re-)executed and while a simulation is active, so
+    that locks made at import time, in __init__ or lazily inside a method are all
+    cooperative.  Nestable."""
+    global _GLOBAL_ON
+    _GLOBAL_ON += 1
+    if _GLOBAL_ON == 1:
+        for n in sorted(_FACTORIES):
+            setattr(threading, n, _FACTORIES[n])
+        for n in sorted(_QFACTORIES):
+            setattr(_queue_mod, n, _QFACTORIES[n])
+
+
+def global_patch_off():
+    global _GLOBAL_ON
+    _GLOBAL_ON -= 1
+    if _GLOBAL_ON == 0:
+        for n in sorted(_REAL_PRIMS):
+            setattr(threading, n, _REAL_PRIMS[n])
+        for n in sorted(_REAL_QUEUES):
+            setattr(_queue_mod, n, _REAL_QUEUES[n])
+
+
 def activate(sched):
     global ACTIVE
     ACTIVE = sched
+    global_patch_on()
 
 
 def deactivate():
     global ACTIVE
+    if ACTIVE is not None:
+        global_patch_off()
     ACTIVE = None
